@@ -33,13 +33,14 @@ PROPS = {
         "run": "^TestC01_",
         "level": "exploration",
         "shards": 16,
+        "engines": True,
         "timeout": 420,
         "thorough_scale": 15,
         "rule": "C01/walk: every node of generated games (initial position, 80-position seed pool, synthetic starts; move choice "
                 "biased towards castling, e.p., promotions, checks, rook-home captures) - engine LegalMoves, the ok-flag of "
                 "Position.Move and Board.PushMove for every pseudo-legal move, and the type/piece/capture/promotion metadata of "
                 "every legal move are compared with the independent mailbox oracle. C01/synth: synthetic odd-material positions. "
-                "C01/perft: differential divide-perft depth 2 (quick) / 2-3 (thorough). Non-trivial = distinct positions (placement, "
+                "C01/perft: differential divide-perft depth 2 (quick) / 2-3 (thorough). C01/perftbin: the real cmd/perft binary built from the working tree, depth 1-3 on generated roots, against the oracle's node counts. Non-trivial = distinct positions (placement, "
                 "side, rights, e.p.) where pseudo-legal != legal (pin, check evasion, king walking into attack) or a castle / e.p. / "
                 "promotion is pseudo-legally available; perft: subtree > 100 nodes. evaluations = positions judged.",
         "assumptions": COMMON_ASSUMPTIONS + ["only the side to move is judged; for e.p. the capture field may be unset or Pawn (documented 'not set')"],
